@@ -96,7 +96,7 @@ func (r *refDB) modify(tab int, kind string, guard uint64, o *Obj, open bool) st
 	return "old=none err=ok"
 }
 
-func (r *refDB) delete(tab int, guard uint64, id []byte, open bool) string {
+func (r *refDB) delete(tab int, kindCad bool, guard uint64, id []byte, open bool) string {
 	if !open {
 		return "old=none err=closed"
 	}
@@ -108,7 +108,7 @@ func (r *refDB) delete(tab int, guard uint64, id []byte, open bool) string {
 	if !had {
 		return "old=none err=ok"
 	}
-	if guard != 0 && old.rev != guard {
+	if kindCad && old.rev != guard {
 		return "old=" + refS(old) + " err=revmismatch"
 	}
 	t.rev++
